@@ -30,3 +30,11 @@ Fixpoint stable_trace_g (lim : option Z) (acc : list (Z * (Z * bool))) (l : list
   end.
 
 Definition c06_stable_plen_ok_g (cfg : vconfig) (l : list fstep) : bool := stable_trace_g None [] l.
+
+(* the unconditional core: WITHIN one poll (EMSGSIZE-free, table after it within the tolerance) the datagrams
+   that carry the same sequence number carry the same payload size, unless the first one was an MTU probe *)
+Definition c06_stable_plen_poll (cfg : vconfig) (st : fstep) : bool :=
+  if tol_ok (fs_post st) then fst (stable_step [] st) else true.
+
+Definition c06_stable_plen_ok_p (cfg : vconfig) (tr : list fstep) : bool :=
+  noemsg_scan (c06_stable_plen_poll cfg) None tr.
